@@ -30,6 +30,8 @@ impl fend_core::Interrupt for Counting {
     }
 }
 
+static POLL_CAP: std::sync::OnceLock<u64> = std::sync::OnceLock::new();
+
 /// Fires once a deadline has passed (checked every 64th poll to keep polling cheap).
 pub struct Deadline {
     pub polls: Cell<u64>,
@@ -44,6 +46,12 @@ impl fend_core::Interrupt for Deadline {
     fn should_interrupt(&self) -> bool {
         let n = self.polls.get();
         self.polls.set(n + 1);
+        // HARNESS_USE_POLL_CAP=<n>: also stop after n polls (used to tell an unbounded recursion, which polls on every level and
+        // is stopped by the cap before the stack runs out, from any other way of dying)
+        let cap = *POLL_CAP.get_or_init(|| std::env::var("HARNESS_USE_POLL_CAP").ok().and_then(|v| v.parse().ok()).unwrap_or(0));
+        if cap > 0 && n >= cap {
+            return true;
+        }
         n % 64 == 63 && std::time::Instant::now() >= self.until
     }
 }
